@@ -243,7 +243,7 @@ def minimise(z: Zygote, scenario: dict, cls: tuple, timeout: int,
 
 
 def write_replay(prop: str, v: dict, scenario: dict, digest: str, seed, info: dict) -> str:
-    d = os.path.join(VERIF_ROOT, "replays")
+    d = os.environ.get("DSIM_REPLAY_DIR") or os.path.join(VERIF_ROOT, "replays")
     os.makedirs(d, exist_ok=True)
     name = f"{prop}-{v['clause']}-{core.h64(core.jdump(scenario))}.json".replace("/", "_")
     path = os.path.join(d, name)
